@@ -15,6 +15,7 @@ mod exec_world;
 mod eng_cache;
 mod eng_load;
 mod eng_conc;
+mod eng_hr;
 mod eng_bytes;
 mod eng_watch;
 mod srctree;
@@ -30,6 +31,7 @@ fn engines() -> Vec<Box<dyn Engine>> {
     v.push(Box::new(eng_cache::CacheEngine::default()));
     v.push(Box::new(eng_load::LoadEngine::default()));
     v.push(Box::new(eng_conc::ConcEngine::default()));
+    v.push(Box::new(eng_hr::HrEngine::default()));
     v.push(Box::new(eng_bytes::BytesEngine::default()));
     v.push(Box::new(eng_watch::WatchEngine::default()));
     v.push(Box::new(eng_src::SrcEngine::default()));
